@@ -200,24 +200,24 @@ class Expression:
     def precedence(self, o1: str, o2: str) -> bool:
         return self.precedence_levels[o1] >= self.precedence_levels[o2]
 
-    def evaluate_exp(self) -> None:
-        operator = self.stack.pop(-1)
+    def evaluate_exp(self, stack: list[str], queue: list[int]) -> None:
+        operator = stack.pop(-1)
         res = 0
 
-        if len(self.queue) < 1:
+        if len(queue) < 1:
             raise ExpressionParserError("Invalid expression: not enough operands")
 
-        right = self.queue.pop(-1)
+        right = queue.pop(-1)
         if operator in self.unary_operators:
             res = self.unary_operators[operator](right)
         else:
-            if len(self.queue) < 1:
+            if len(queue) < 1:
                 raise ExpressionParserError("Invalid expression: not enough operands")
 
-            left = self.queue.pop(-1)
+            left = queue.pop(-1)
             res = self.binary_operators[operator](left, right)
 
-        self.queue.append(res)
+        queue.append(res)
 
     def is_number(self, token: str) -> bool:
         return token.isnumeric() or (len(token) > 2 and token[0] == "0" and token[1] in ("x", "X", "b", "B", "o", "O"))
@@ -225,8 +225,10 @@ class Expression:
     def evaluate(self, context: dict[str, int] | None = None) -> int:
         """Evaluates an expression using a Shunting-Yard implementation."""
 
-        self.stack = []
-        self.queue = []
+        # Keep the state of this evaluation local: the Expression object is shared by everything that uses the type
+        # it belongs to, e.g. threads parsing with the same structure
+        stack: list[str] = []
+        queue: list[int] = []
         operators = set(self.binary_operators.keys()) | set(self.unary_operators.keys())
 
         context = context or {}
@@ -246,24 +248,24 @@ class Expression:
         while i < len(tmp_expression):
             current_token = tmp_expression[i]
             if self.is_number(current_token):
-                self.queue.append(int(current_token, 0))
+                queue.append(int(current_token, 0))
             elif current_token in context:
-                self.queue.append(int(context[current_token]))
+                queue.append(int(context[current_token]))
             elif current_token in self.cstruct.consts:
-                self.queue.append(int(self.cstruct.consts[current_token]))
+                queue.append(int(self.cstruct.consts[current_token]))
             elif current_token in self.unary_operators:
-                self.stack.append(current_token)
+                stack.append(current_token)
             elif current_token == "sizeof":
                 if len(tmp_expression) < i + 3 or (tmp_expression[i + 1] != "(" or tmp_expression[i + 3] != ")"):
                     raise ExpressionParserError("Invalid sizeof operation")
-                self.queue.append(len(self.cstruct.resolve(tmp_expression[i + 2])))
+                queue.append(len(self.cstruct.resolve(tmp_expression[i + 2])))
                 i += 3
             elif current_token in operators:
                 while (
-                    len(self.stack) != 0 and self.stack[-1] != "(" and (self.precedence(self.stack[-1], current_token))
+                    len(stack) != 0 and stack[-1] != "(" and (self.precedence(stack[-1], current_token))
                 ):
-                    self.evaluate_exp()
-                self.stack.append(current_token)
+                    self.evaluate_exp(stack, queue)
+                stack.append(current_token)
             elif current_token == "(":
                 if i > 0:
                     previous_token = tmp_expression[i - 1]
@@ -272,7 +274,7 @@ class Expression:
                             f"Parser expected sizeof or an arethmethic operator instead got: '{previous_token}'"
                         )
 
-                self.stack.append(current_token)
+                stack.append(current_token)
             elif current_token == ")":
                 if i > 0:
                     previous_token = tmp_expression[i - 1]
@@ -281,24 +283,24 @@ class Expression:
                             f"Parser expected an expression, instead received empty parenthesis. Index: {i}"
                         )
 
-                if len(self.stack) == 0:
+                if len(stack) == 0:
                     raise ExpressionParserError("Invalid expression")
 
-                while self.stack[-1] != "(":
-                    self.evaluate_exp()
+                while stack[-1] != "(":
+                    self.evaluate_exp(stack, queue)
 
-                self.stack.pop(-1)
+                stack.pop(-1)
             else:
                 raise ExpressionParserError(f"Unmatched token: '{current_token}'")
             i += 1
 
-        while len(self.stack) != 0:
-            if self.stack[-1] == "(":
+        while len(stack) != 0:
+            if stack[-1] == "(":
                 raise ExpressionParserError("Invalid expression")
 
-            self.evaluate_exp()
+            self.evaluate_exp(stack, queue)
 
-        if len(self.queue) != 1:
+        if len(queue) != 1:
             raise ExpressionParserError("Invalid expression")
 
-        return self.queue[0]
+        return queue[0]
